@@ -396,6 +396,8 @@ def step (line : String) : String :=
     (match parseTab tab with
     | some l => okOrPanic ((Dyn.npnCanonization l).map (fun r => s!"{showTab r.1} {showNats r.2.1.toList} {r.2.2}"))
     | _ => "bad-op")
+  | ["clonefrom", _, _, src] => (match parseTab src with
+    | some l => s!"ok {showTab l} 1" | _ => "bad-op")
   | ["npnorbit", _, _, _] => "unmodelled"
   | ["canonseq", n] =>
     (match n.toNat? with
@@ -473,7 +475,9 @@ def step (line : String) : String :=
       | "min" => let r := it.rest fuel; s!"ok {sh (Dyn.minOf r.1)} {sh r.2.next.1}"
       | "fold" => let r := it.rest fuel
         s!"ok {showHexNat (r.1.foldl (fun h l => l.t.foldl digestStep h) 14695981039346656037)} {sh r.2.next.1}"
-      | "hint" => "ok 1"
+      | "hint" | "hint0" => "ok 1"
+      | "takecollect" => let r := (it.rest b).1
+        s!"ok {r.length} {sh r.getLast?}"
       | "vcount" => s!"ok {(it.rest fuel).1.length}"
       | "vlast" => s!"ok {sh (it.rest fuel).1.getLast?}"
       | "vmax" => s!"ok {sh (Dyn.maxOf (it.rest fuel).1)}"
